@@ -176,7 +176,7 @@ func (c *Case) Validate() error {
 
 // Val is the canonical form of a value: either a leaf or a map sorted by key.
 type Val struct {
-	Leaf string `json:"l,omitempty"`
+	Leaf string   `json:"l,omitempty"`
 	Keys []string `json:"k,omitempty"`
 	Vals []*Val   `json:"v,omitempty"`
 	Map  bool     `json:"m,omitempty"`
